@@ -87,7 +87,7 @@ func (f *fixture) httpPut(hash string, wire []byte, o httpOpts) cls {
 		if tc, ok := conn.(*net.TCPConn); ok {
 			_ = tc.CloseWrite()
 		}
-		_ = conn.SetReadDeadline(time.Now().Add(3 * time.Second))
+		_ = conn.SetReadDeadline(time.Now().Add(60 * time.Second))
 		resp, err := http.ReadResponse(bufio.NewReader(conn), nil)
 		if err != nil {
 			return cNoReply
